@@ -140,6 +140,21 @@ def late_dr_scenarios():
     return out
 
 
+def folder_rename_scenarios():
+    """a plain folder (no history of its own) renamed / moved with everything in it: every file below it is a renamed
+    file and keeps its identity"""
+    out = []
+    for src, dst in (("s", "s2"), ("s", "t/s"), ("s/u", "u")):
+        tree = {"s/x.txt": "content x", "s/y.txt": "content y", "s/u/z.txt": "content z", "k.txt": "k", "t/": None}
+        f_old = "s/u/z.txt" if src == "s/u" else "s/x.txt"
+        f_new = dst + f_old[len(src):]
+        ops = [{"op": "create", "at": "", "h": ["md5"], "now": "2026-03-01 12:00:01"}, {"op": "mv", "src": src, "dst": dst},
+               {"op": "create", "at": "", "h": ["md5"], "now": "2026-03-01 12:00:02", "dr": True},
+               {"op": "verify", "at": ""}, {"op": "diff", "at": ""}, {"op": "create", "at": "", "h": ["md5"], "now": "2026-03-01 12:00:03"}]
+        out.append({"profile": "c17-folder-rename", "impl_only": True, "root": "root", "tree": tree, "ops": ops, "c17n": {"hist": "", "old": f_old, "new": f_new, "dr_index": 2}})
+    return out
+
+
 def monitor(sc, res):
     if sc.get("c17n"):
         return monitor_nested(sc, res)
@@ -199,7 +214,7 @@ def monitor(sc, res):
 
 
 def run(ctx):
-    scs = nested_rename_scenarios() + late_dr_scenarios() + [build(ctx.seed * 1000609 + i) for i in range(ctx.scale(150, 2500))]
+    scs = nested_rename_scenarios() + late_dr_scenarios() + folder_rename_scenarios() + [build(ctx.seed * 1000609 + i) for i in range(ctx.scale(150, 2500))]
     return _scn.run_scn(ctx, scs, monitor, witness_ids=("D8", "D12"),
         assumptions=["pairwise distinct contents among recorded files; one history; the new path of a renamed file was never recorded before (DESIGN.md 9)"])
 
